@@ -4,4 +4,6 @@ CLAIMED = {
  "C20": {"ref": "3.20", "text": "Bounded model checking of gr_str_to_tag / gr_tag_to_str from the real IR: every string of length 0..6 (thorough 0..8) over all byte values in an exact-size buffer, all 2^32 tags; out-of-bounds access decided by cbmc's pointer checks on the exact-size objects, values against a 4-line reference.",
          "note": BASE_NOTE + " strlen is cbmc's model."},
 }
+CLAIMED["C11"] = {"ref": "3.11", "text": "Bounded model checking of gr_count_unicode_characters and the _utf_codec<8/16/32> get/put/validate code from the real IR on exact-size heap buffers (UTF-8 0..6 bytes, UTF-16 0..4 units, UTF-32 0..3 units; thorough 8/5/3), all contents, with and without buffer_end, against reference decoders written from Unicode Table 3-7; single-step decode/resync lemma and put/get identity over all scalar values.",
+         "note": BASE_NOTE + " Encoded surrogate code points in UTF-8/UTF-32 are left unclassified. Segment-level encoding equivalence is decided under C05."}
 NOT_APPLICABLE = {}
